@@ -81,13 +81,14 @@ CHECKS = {
     ),
     'C04': (
         'exploration',
-        'bounded exhaustive fault enumeration: every balanced garbage token sequence <=d classified as one damaged construct x every injection point of 6 base sheets; every prefix of 5 sheets x 3 spellings',
+        'bounded exhaustive fault enumeration: every balanced garbage token sequence <=d classified as one damaged construct x every injection point of 6 base sheets; every prefix of 7 sheets x 3 spellings',
         'DESIGN.md 3/C04',
         'All token sequences of length <=2 over 34 tokens and of length 3 (quick) / up to 4 (thorough) over an 18-token core that an independent classifier '
         'accepts as exactly one malformed declaration, one rule with a surely invalid selector, or one unknown at-rule prelude are injected at every '
         'declaration / statement boundary (also inside @media, @page, @font-face) of six base sheets, plus misplaced @import/@charset/@namespace; the '
-        'comment-free projection must equal that of the undamaged sheet (an unknown at-rule node excepted). Every prefix of five sheets in three spellings '
-        'is parsed; every rule and declaration complete before the cut must be present unchanged. Witnesses are reduced to their essential tokens by '
+        'comment-free projection must equal that of the undamaged sheet (an unknown at-rule node excepted). Every prefix of seven sheets in three spellings '
+        'is parsed (with comments kept, with the log silenced and with comments dropped); every rule and declaration complete before the cut must be present unchanged, and the '
+        'serialisation of every truncated text must have all brackets, strings and comments closed, innermost first. Witnesses are reduced to their essential tokens by '
         'one-step removal. Exhaustive within the bounds.',
         'Trusted: the classifier in checks/c04.py (conservative: ambiguous damage is excluded), the mark offsets of mc/model/cssast.py for "complete before the cut".',
     ),
@@ -143,7 +144,7 @@ CHECKS = {
         'empty fetchers, missing files, raising-mode parsers, long-lived parser objects, accepted and rejected DOM edits, serialisation under changed '
         'preferences, csscombine variants, profile add/remove, explicit preference setting - is executed in a freshly forked process; after each parse call '
         'the error mode, preferences and profiles must equal their values at call start; after the history a 15-probe battery and a parser-reuse probe '
-        'must give the results of a pristine process (or of the explicit settings made). Violations are reduced to histories in which every call is essential.',
+        '(repeated calls, and plain calls after calls with per-call arguments) must give the results of a pristine process (or of the explicit settings made). Violations are reduced to histories in which every call is essential.',
         'Trusted: the state vector G is only used for reporting; hidden state outside G is caught by the probe battery. Lazily compiled regexes are pre-compiled in the parent.',
     ),
     'C10': (
@@ -154,7 +155,7 @@ CHECKS = {
         'cssText assignment over names differing by case and escapes x values x priorities, from two seeds, to closure under <=3 (quick) / <=4 (thorough) '
         'entries (26 580 / 414 584 states); after every transition the entry list, every lookup (5 names x normalize), length/item/keys/iteration/in, the '
         'serialisation (read by an independent mini parser), the return value and "refused operation changes nothing" are compared with the reference. '
-        'Same search for the variables block. All 138 known property names x {get,set,set empty,del} by DOM and CSS name.',
+        'Same search for the variables block (values also handed over as one shared PropertyValue object; the state key tells which variables share it). All 138 known property names x {get,set,set empty,del} by DOM and CSS name.',
         'Trusted: mc/model/ref_decl.py, ref_vars.py (written from the statement); leniencies (name order by last entry, Python negative indexes, empty value = removal) are listed in the evidence.',
     ),
     'C13': (
@@ -166,7 +167,8 @@ CHECKS = {
         'a style rule, in @font-face, Property(), style[name]=, profile.validate), spellings with <=1 deviation, a serialise/reparse round trip and all '
         'validation switch settings: the verdict must be identical across routes/spellings/round trip, agree with the CSS 2.1 grammar reference (exactly in a '
         'CSS 2.1-only registry, with CSS3 additions as don\'t-care otherwise), unknown names never valid, block/rule/sheet valid iff all declarations, and '
-        'stored/serialised content identical with validation on and off. Exhaustive over the table.',
+        'stored/serialised content identical with validation on and off; CSS 2.1 as the only active profile among all registered ones answers like CSS 2.1 registered alone; '
+        'the conjunction also with declarations on two levels (@page + margin box, @media in @media) and with validation switched off. Exhaustive over the table.',
         'Trusted: mc/model/ref_css21.py (typed from CSS 2.1 Appendix F) with its explicit don\'t-care set; @font-face is its own context.',
     ),
     'C09': (
@@ -178,7 +180,8 @@ CHECKS = {
         '@media, over a 17-rule alphabet, to closure under <=3 (quick: 21 051 states, 148 184 transitions) / <=4 (thorough) rules per list. On every '
         'transition, accepted or rejected: at most one @charset and only first; imports < namespaces < style/media/page/font-face; nested kinds allowed; '
         'parent links of every rule, declaration block, property, selector list, media list; removed rules detached; a rejected operation leaves the '
-        'observation vector unchanged; serialise+reparse keeps the rule structure; ordered add keeps the other rules in order. Violations are attributed to '
+        'observation vector unchanged; serialise+reparse keeps the rule structure; ordered add keeps the other rules in order. Probes from every state (judged, not expanded): '
+        'Property objects set / moved in, a rule handed the parts it already holds, rule lists inserted, refused insertions in log-only mode. Violations are attributed to '
         'the transition that introduces them.',
         'Trusted: the canonical key is over-fine (rule kinds incl. nested, full serialisation, namespaces, encoding). @variables is not ordered by the statement; namespace resolution of selectors is judged in C15.',
     ),
@@ -190,7 +193,7 @@ CHECKS = {
         'profiles (new property, redefinition, token-macro override, general-macro override, private macro, override of a private macro) from the built-in '
         'and the emptied registry, both with copied and with shared definition dicts, depth 5 (quick: 1 688 states, 39 584 transitions) / 6 (thorough). '
         'In every state: add+remove of every unregistered profile restores the observation (49-pair verdict battery through validate and validateWithProfile, '
-        'knownNames, profiles, propertiesByProfile); states with equal contents have equal observations; validate == "some registered profile defining '
+        'knownNames, profiles, propertiesByProfile with and without a profile name); states with equal contents have equal observations; validate == "some registered profile defining '
         'the name accepts" computed by an independent reference; defaultProfiles changes only the matching component; unknown removal raises and changes nothing.',
         'Trusted: mc/model/ref_profiles.py; "contents" = ordered sequence of registered profiles + defaultProfiles.',
     ),
@@ -200,7 +203,7 @@ CHECKS = {
         'DESIGN.md 3/C19',
         'getUrls/replaceUrls: all sheets with <=2 @import forms and <=2 rules (style, @media, @page with margin box, @font-face) with url() in two value '
         'slots (22 566 sheets quick): enumeration order, identity / counting / tagging replacers, ignoreImportRules. Flattening: every import chain of '
-        'depth <=2 (quick) / <=3 (thorough) with 7 target locations x media x present/missing on every edge and 14 leaf contents, all 12 tree shapes '
+        'depth <=2 (quick) / <=3 (thorough) with 8 target locations x media x present/missing on every edge and 15 leaf contents, all 12 tree shapes '
         'with <=k sites off default, through resolveImports and csscombine (normal/minified, target encoding none/ascii, path/url/cssText entry); the '
         'flattened rules, their media wrapping, kept imports, every re-based URL (urljoin from the combined sheet == urljoin from the original) and the '
         'fetch log are compared with the reference expansion.',
@@ -210,19 +213,21 @@ CHECKS = {
         'model_checking',
         'explicit-state breadth-first search over namespace operation histories on a pair of real sheets (history replay, over-fine key), with the effective-mapping reference and selector (URI, name) pairs checked on every transition',
         'DESIGN.md 3/C15',
-        'BFS from 3 seeds over namespaces[p]=u / del, insert/add/delete of @namespace rules, rule.prefix assignment, selectorText assignment and '
+        'BFS from 5 seeds over namespaces[p]=u / del, insert/add/delete of @namespace rules, rule.prefix assignment, selectorText assignment and '
         'appendSelector over 6 selector forms (p|a, q|a, *|a, |a, a, [p|x]), insertion of detached rules carrying their own namespaces, moving rules between '
         'two sheets, sheet text replacement; closure under <=2 (quick) / <=3 (thorough) @namespace rules and 1 / 2 style rules. After every transition on both '
         'sheets: the mapping equals the effective rules computed by the reference (last declaration of a URI and of a prefix wins) and the rule list holds no '
         'ineffective rule; every URI used by a selector is declared; a rejected operation changes nothing; operations that are no selector edit leave '
-        'every prefixed / explicitly un-namespaced (URI, name) pair alone; the serialisation reparses to the same namespace rules and pairs.',
+        'every prefixed / explicitly un-namespaced (URI, name) pair alone; the serialisation reparses to the same namespace rules and pairs (read at every @media depth). '
+        'Probes: a rule taken out of the sheet (or out of its @media rule) is not touched by later edits of the sheet; 10 selectors with an undeclared prefix x 4 contexts x '
+        'parse / selectorText / appendSelector in both error modes are refused as a whole.',
         'Trusted: ref_ns in checks/c15.py; None == "" for names parsed without default namespace (pinned by the repository tests).',
     ),
     'C11': (
         'model_checking',
         'exhaustive enumeration of histories of length <=2 over the table of all public DOM mutators x staged rejection menus on a sheet holding every rule kind, with a full observation vector compared around every rejected call; every mutator on every class constructed read-only',
         'DESIGN.md 3/C11',
-        '24 target objects (sheet, every rule kind, declaration block, properties, property value and a value item, selector list and selectors, media '
+        '28 target objects (sheet, every rule kind, declaration block, properties, property value and a value item, selector list and selectors, media '
         'lists and query, nested rules, margin rule) x 70 mutators x their argument menus (accepted texts and texts rejected immediately, after an accepted '
         'prefix, or in a nested object; wrong rule kinds, bad indexes, undeclared prefixes): each call is made on the parsed seed state and on every '
         'distinct state reached by one accepted mutation of the same target (thorough: also of the sheet). Whenever xml.dom.DOMException is raised the '
@@ -233,7 +238,7 @@ CHECKS = {
     ),
     'C06': (
         'exploration',
-        'exhaustive enumeration of preference assignments (every single value of every preference, all pairs, the minified preset with bounded deviations, triples and the full 2^14 boolean cube in thorough) x a 19-sheet corpus, against a reference transformer written from the Preferences documentation',
+        'exhaustive enumeration of preference assignments (every single value of every preference, all pairs, the minified preset with bounded deviations, triples and the full 2^14 boolean cube in thorough) x a 22-sheet corpus, against a reference transformer written from the Preferences documentation',
         'DESIGN.md 3/C06',
         'All 34 single deviations of the 25 preferences, all 551 pairs, useMinified() plus <=1 (quick) / <=2 (thorough) further deviations, and in thorough '
         'all triples of content-affecting deviations and the full cube of the 14 content booleans on 8 sheets, are applied to the process-wide serializer '
@@ -241,7 +246,8 @@ CHECKS = {
         'something to keep. Clauses: the output reparses without new errors; proj(reparse) equals the documented effect applied to proj(DOM); token-level '
         'expectations (literal at-keywords / names / priorities, hash shortening, leading zeros, last semicolon, no comment tokens); pure layout preferences '
         'leave the non-white-space token sequence unchanged; useDefaults() restores the default bytes; a rule serialised alone has the tokens it has inside '
-        'its sheet. Failing assignments are reduced greedily to the 1-minimal set of deviating preferences.',
+        'its sheet. Families on DOMs that were not just parsed: edited after parsing (8), built through five different calls (175 cases), parsed with validate=False (154). '
+        'Failing assignments are reduced greedily to the 1-minimal set of deviating preferences.',
         'Trusted: mc/model/ref_prefs.py (compositional, written from the Preferences docstring); leniencies listed in the evidence (the ";" stays when a comment or filtered declaration follows the last declaration - pinned by repository tests).',
     ),
 }
